@@ -37,3 +37,7 @@ c17_err(E, X) :-
         ( F = syntax_error(K) -> ( atom(K) -> X = se(K) ; X = se(other) ) ; X = oe(F) )
     ;   X = ball(E)
     ).
+
+% operator-table variants: c17_ops(List) applies op(P,T,NameCodes) in order
+c17_ops([]).
+c17_ops([op(P,T,Cs)|Os]) :- atom_codes(N, Cs), op(P, T, N), c17_ops(Os).
